@@ -145,7 +145,7 @@ def _param_of(t):
 
 def _members(t):
     """canonical container of a membership test: names tuple, dict of names and dtype.fields have the same keys"""
-    if isinstance(t, tuple) and t and t[0] in ("MAP", "FIELDS", "NAMES"):
+    if isinstance(t, tuple) and t and t[0] in ("MAP", "NMAP", "FIELDS", "NAMES"):
         return ("NAMES", t[1])
     return t
 
@@ -315,6 +315,8 @@ class _Interp:
             return ("IMAP", F)
         if el[2] == ("ENTRY", F, ("K", lp.id)):
             return ("MAP", F)
+        if el[2] == el[1]:
+            return ("NMAP", F)
         return t
 
     def pairs_dict(self, a0, st):
@@ -622,7 +624,7 @@ class _Interp:
     # -- for -----------------------------------------------------------------------------------------------------------
     def iterate(self, it, target, st, body, node):
         it = self.dictkind(it)
-        if it[0] == "IMAP":
+        if it[0] in ("IMAP", "NMAP"):
             it = ("NAMES", it[1])      # walking a dict walks its keys, in insertion order
         self.use(it)
         status = set()
@@ -708,7 +710,7 @@ class _Interp:
         if isinstance(e, (ast.List, ast.Tuple)):
             elems = [self.ev(x, st) for x in e.elts]
             if isinstance(e, ast.Tuple):
-                return ("TUPLE",) + tuple(elems)
+                return _own_record(("TUPLE",) + tuple(elems))
             return self.pylist(self.newlist(st, [_Seg((), (), x) for x in elems]))
         if isinstance(e, ast.Dict) and not e.keys:
             return self.newdict(st)
@@ -800,6 +802,8 @@ class _Interp:
             h = b[0]
         if h == "IMAP":
             return ("NIDX", b[1], k)
+        if h == "NMAP":
+            return k                    # the dtype's own name object for that name: the same name
         if k[0] == "IDXOF" and h not in ("DESCR", "NAMES", "MAP", "LIST"):
             return ("ELEM", b, k[1])          # the element at the position of that loop (sequences walked in step)
         if h == "DESCR":
@@ -953,6 +957,8 @@ class _Interp:
             return ("ENUM", a0)
         if nm == "dict" and len(args) == 1 and a0[0] == "ZIP" and a0[1][0] == "NAMES" and a0[2] == ("DESCR", a0[1][1]):
             return ("MAP", a0[1][1])
+        if nm == "dict" and len(args) == 1 and not kws and a0[0] == "ZIP" and len(a0) == 3 and a0[1][0] == "NAMES" and a0[2] == a0[1]:
+            return ("NMAP", a0[1][1])
         if nm == "dict" and isinstance(f, ast.Name) and not kws:
             if not args:
                 return self.newdict(st)
@@ -1042,6 +1048,8 @@ class _Interp:
             if nm == "values" and not args:
                 return ("DESCR", recv[1])
         if recv[0] == "FIELDS" and nm == "keys" and not args:
+            return ("NAMES", recv[1])
+        if recv[0] == "NMAP" and nm in ("keys", "values") and not args:
             return ("NAMES", recv[1])
         if nm == "tolist" and recv[0] in ("NAMES", "DESCR", "LIST") and not args:
             return self.copy_of(recv, st)
@@ -1149,6 +1157,15 @@ class _Interp:
             return vals[0]
         if not vals:
             return ("X", "no-return")
+        if len(rets) == 2:
+            # `if isinstance(x, <classes>): return x` / `return [x]` (either order, either polarity): the helper is the scalar-wrapping
+            # idiom with the two arms written as two returns; its value is the same normalised argument the if/else form gives
+            (va, ga), (vb, gb) = rets
+            ga, gb = tuple(ga[n0:]), tuple(gb[n0:])
+            if len(ga) == 1 and len(gb) == 1 and ga[0].cond == gb[0].cond and ga[0].pol != gb[0].pol and ga[0].cond[0] == "ISINST":
+                m = self._norm_merge(ga, va, vb, None)
+                if m is not None:
+                    return m
         return ("RETS",) + tuple((v, tuple(gs[n0:])) for v, gs in rets)
 
 
@@ -1185,6 +1202,25 @@ def _module_binding(module, name):
         r = ("unknown", None)
     cache[name] = r
     return r
+
+
+def _own_record(t):
+    """(name, F[name]) / (name, F.fields[name][0]) with F a dtype: the field's own record in F, i.e. what the descr entry of that name
+    says (name, type with byte order, sub-array shape) for a packed dtype.  It is the same term the descr entry gets, so the rules
+    about the new field list read a list of such pairs like a list of descr entries."""
+    if len(t) != 3:
+        return t
+    name, ty = t[1], t[2]
+    F = None
+    if ty[0] == "ITEM" and ty[1][0] in ("DT", "NPDT") and len(ty[1]) == 2 and ty[2] == name:
+        F = ty[1]
+    elif ty[0] == "ITEM" and ty[2] == ("C", 0) and ty[1][0] == "ITEM" and ty[1][1][0] == "FIELDS" and ty[1][2] == name:
+        F = ty[1][1][1]
+    if F is None or name[0] in ("C", "X", "G"):
+        return t
+    if name[0] == "NAME" and len(name) == 3 and name[1] == F:
+        return ("ENTRY", F, name[2])
+    return ("ENTRY", F, ("N", name))
 
 
 def _const_int(t):
@@ -1997,7 +2033,7 @@ def reorder(chk, repo, fi, it, alloc):
         e1 = ("ELEM", s1.loops[0].src, s1.loops[0].id)
         fl = _filters(s1.guards)
         same = s1.elem[0] == "ENTRY" and s1.elem[1] == F
-        ok1 = s1.elem == ("ENTRY", F, ("N", e1)) and len(fl) == 1 and fl[0].cond == ("IN", e1, ("NAMES", F)) and fl[0].pol
+        ok1 = s1.elem == ("ENTRY", F, ("N", e1)) and len(fl) == 1 and _is_field_test(it, fl[0], e1, F)
     # second pass: every field in original order, unless already taken
     ok2 = tracked = False
     if len(s2.loops) == 1 and _in_order_over(s2.loops[0], F):
@@ -2018,6 +2054,24 @@ def reorder(chk, repo, fi, it, alloc):
            "second pass: remaining fields in original order, each appended once (not already taken)")
     chk.ob("R07.order", q + "::taken-names-tracked", tracked, fi.where(), "the names taken in the first pass are exactly the ones the second pass leaves out")
     chk.ob("R07.reject", q + "::missing-name-strict", _missing_strict(it, fi, F, onames), fi.where(), "strict mode rejects a requested name that is not a field")
+
+
+def _is_field_test(it, g, x, F):
+    """the guard says `x is the name of a field of F`, x being an element of a sequence S: written as `x in F.names`, or as
+    `x not in M` with M = [n for n in S if n not in F.names] (the requested names that are missing), complete at every test on it:
+    x is in S, so  x in M  <=>  x not in F.names"""
+    c = g.cond
+    if c == ("IN", x, ("NAMES", F)):
+        return g.pol
+    if c[0] != "IN" or c[1] != x or g.pol or c[2][0] != "LIST" or x[0] != "ELEM":
+        return False
+    segs = it.heap.get(c[2][1], [])
+    if len(segs) != 1 or len(segs[0].loops) != 1 or not all(n == 1 for n in it.tested.get(c[2][1], [0])):
+        return False
+    sg, lp = segs[0], segs[0].loops[0]
+    el = ("ELEM", lp.src, lp.id)
+    fl = _filters(sg.guards)
+    return not lp.broken and lp.src == x[1] and lp.src[0] != "LIST" and sg.elem == el and len(fl) == 1 and fl[0].cond == ("IN", el, ("NAMES", F)) and not fl[0].pol
 
 
 def _compared_quantity(g, arrlist, e):
